@@ -29,6 +29,7 @@ type Obligation struct {
 	Trace   []string
 	Entry   map[string]Value // parameter name → entry value (for model extraction)
 	EntryHeap map[string]Term
+	FrameField string // Go field name for frame obligations on struct fields
 }
 
 type Unit struct {
@@ -285,7 +286,9 @@ func (u *Unit) explore(st *State) {
 func (u *Unit) run(st *State) {
 	for {
 		fr := st.frame
-		if fr.idx == 0 {
+		if fr.idx == 0 && st.skipEnter {
+			st.skipEnter = false
+		} else if fr.idx == 0 {
 			// entering a block
 			if st.enterBlock() {
 				u.paths++
@@ -776,9 +779,12 @@ func (st *State) unop(x *ssa.UnOp) Value {
 		if r.T == nil {
 			r.T = x.Type()
 		}
-		// func values loaded from a struct field keep their origin for fnspec lookup
-		if _, ok := types.Unalias(x.Type()).Underlying().(*types.Signature); ok && r.Clo == nil {
-			r.Origin = st.fieldOrigin(p)
+		// values loaded from a struct field keep their origin for fnspec / fieldspec lookup
+		if r.Clo == nil && r.Origin == "" {
+			switch types.Unalias(x.Type()).Underlying().(type) {
+			case *types.Signature, *types.Pointer, *types.Interface:
+				r.Origin = st.fieldOrigin(p)
+			}
 		}
 		return r
 	case token.NOT:
@@ -805,6 +811,11 @@ func (st *State) unop(x *ssa.UnOp) Value {
 
 func (st *State) fieldOrigin(p *Pointer) string {
 	if len(p.Path) == 0 {
+		if p.Kind == RElem && p.SliceT != nil {
+			if n, ok := types.Unalias(p.SliceT).(*types.Named); ok && n.Obj().Pkg() != nil {
+				return n.Obj().Pkg().Name() + "." + n.Obj().Name() + ".elem"
+			}
+		}
 		return ""
 	}
 	last := p.Path[len(p.Path)-1]
@@ -1344,7 +1355,7 @@ func (st *State) indexAddr(x *ssa.IndexAddr) Value {
 	case *types.Slice:
 		st.check("index", txt, pos, And(Le(IntLit(0), idx.Tm), Lt(idx.Tm, SlLen(base.Tm))))
 		_ = e
-		return Value{T: x.Type(), Ptr: &Pointer{Kind: RElem, Ref: SlRef(base.Tm), Idx: Add(SlOff(base.Tm), idx.Tm), RootT: t.Elem()}}
+		return Value{T: x.Type(), Ptr: &Pointer{Kind: RElem, Ref: SlRef(base.Tm), Idx: Add(SlOff(base.Tm), idx.Tm), RootT: t.Elem(), SliceT: base.T}}
 	case *types.Pointer:
 		arr := types.Unalias(t.Elem()).Underlying().(*types.Array)
 		st.check("index", txt, pos, And(Le(IntLit(0), idx.Tm), Lt(idx.Tm, IntLit(arr.Len()))))
